@@ -53,11 +53,11 @@ var c04Table = map[string]map[string][]Guard{
 		{"type cannot be opened", []Lit{L(false, "CanOpen($fid.mode)")}, 22},
 		{"directory opened for writing", []Lit{L(true, "$fid.mode.IsDir()"), L(false, "$t.Flags.Mode() == ReadOnly", "$t.Flags & OpenFlagsModeMask == ReadOnly")}, 21},
 	}},
-	"p9.tlcreate.do":    {"Create": dirGuards("fid")},
-	"p9.tsymlink.do":    {"Symlink": dirGuards("Directory")},
-	"p9.tmknod.do":      {"Mknod": dirGuards("Directory")},
-	"p9.tmkdir.do":      {"Mkdir": dirGuards("Directory")},
-	"p9.tlink.handle":   {"Link": dirGuards("Directory")},
+	"p9.tlcreate.do":      {"Create": dirGuards("fid")},
+	"p9.tsymlink.do":      {"Symlink": dirGuards("Directory")},
+	"p9.tmknod.do":        {"Mknod": dirGuards("Directory")},
+	"p9.tmkdir.do":        {"Mkdir": dirGuards("Directory")},
+	"p9.tlink.handle":     {"Link": dirGuards("Directory")},
 	"p9.tunlinkat.handle": {"UnlinkAt": dirGuards("Directory")},
 	"p9.trenameat.handle": {"RenameAt": append(dirGuards("OldDirectory"),
 		Guard{"new directory is not a directory", []Lit{L(false, "$NewDirectory.mode.IsDir()")}, 22})},
